@@ -232,6 +232,9 @@ opt-level = 3
     def build(self, max_rounds=4):
         """Compile everything; cases that do not compile are recorded and stubbed."""
         t0 = time.time()
+        # keep crates small (rustc's memory and wall time grow with the number of modules per crate)
+        while len(self.cases) / self.nshards > 120 and self.nshards < 128:
+            self.nshards *= 2
         self._write()
         for rnd in range(max_rounds):
             self.rounds = rnd + 1
